@@ -1,1 +1,440 @@
-(* Front/CodegenProofs.v -- stub, to be filled *)
+(* Front/CodegenProofs.v -- facts about the name mangling of Front/Codegen.v used by Props/C09.v *)
+From A1 Require Import Base.Res Gen.Keywords Front.Codegen.
+From Coq Require Import ZifyBool ZifyNat ZifyN String.
+Local Open Scope N_scope.
+
+(* ------------------------------------------------------------------ characters *)
+Definition okc (c : N) : bool := is_lower c || is_digit c || (c =? USCORE).
+Definition alnum (c : N) : bool := is_alpha c || is_digit c.
+
+Ltac unf := unfold okc, alnum, ident_continue, asn_char, to_lower, to_upper, is_sep, is_alpha, is_upper, is_lower, is_digit, HYPHEN, USCORE in *.
+
+Lemma lower_not_upper c : is_lower c = true -> is_upper c = false.  Proof. unf. lia. Qed.
+Lemma lower_not_sep c : is_lower c = true -> is_sep c = false.      Proof. unf. lia. Qed.
+Lemma upper_not_sep c : is_upper c = true -> is_sep c = false.      Proof. unf. lia. Qed.
+Lemma lower_alpha c : is_lower c = true -> is_alpha c = true.        Proof. unf. lia. Qed.
+Lemma upper_alpha c : is_upper c = true -> is_alpha c = true.        Proof. unf. lia. Qed.
+Lemma okc_uscore : okc USCORE = true.                                Proof. reflexivity. Qed.
+Lemma okc_to_lower c : is_upper c = true -> okc (to_lower c) = true.
+Proof. unf. intros H. rewrite H. lia. Qed.
+Lemma okc_plain c : asn_char c = true -> is_upper c = false -> is_sep c = false -> okc c = true.
+Proof. unf. lia. Qed.
+Lemma okc_continue c : okc c = true -> ident_continue c = true.     Proof. unf. lia. Qed.
+Lemma okc_not_hyphen c : okc c = true -> (c =? HYPHEN) = false.      Proof. unf. lia. Qed.
+Lemma alnum_continue c : alnum c = true -> ident_continue c = true.  Proof. unf. lia. Qed.
+Lemma alnum_not_sep c : alnum c = true -> is_sep c = false.          Proof. unf. lia. Qed.
+Lemma alnum_of_asn c : asn_char c = true -> is_sep c = false -> alnum c = true.
+Proof. unf. lia. Qed.
+Lemma alnum_to_upper c : alnum c = true -> alnum (to_upper c) = true.
+Proof. unf. destruct ((97 <=? c) && (c <=? 122)) eqn:E; lia. Qed.
+Lemma alnum_to_lower c : alnum c = true -> alnum (to_lower c) = true.
+Proof. unf. destruct ((65 <=? c) && (c <=? 90)) eqn:E; lia. Qed.
+Lemma to_upper_of_lower c : is_lower c = true -> is_upper (to_upper c) = true.
+Proof. unf. intros H. rewrite H. lia. Qed.
+Lemma to_upper_of_upper c : is_upper c = true -> to_upper c = c.
+Proof. unf. intros H. destruct ((97 <=? c) && (c <=? 122)) eqn:E; [lia | reflexivity]. Qed.
+
+Lemma forallb_Forall {A} (f : A -> bool) l : forallb f l = true <-> Forall (fun x => f x = true) l.
+Proof. rewrite forallb_forall, Forall_forall. reflexivity. Qed.
+
+(* ------------------------------------------------------------------ rust_module_name *)
+Lemma pad_step_cases pad c o pa : pad_step pad c o pa = USCORE :: o \/ pad_step pad c o pa = o.
+Proof. unfold pad_step. destruct (_ && _); auto. Qed.
+
+Lemma upper_step_cases o pl pa rest : upper_step o pl pa rest = USCORE :: o \/ upper_step o pl pa rest = o.
+Proof.
+  unfold upper_step. destruct (_ && _); auto. destruct (negb pl); auto.
+  destruct rest as [|n r]; auto. destruct (is_lower n); auto.
+Qed.
+
+Lemma pad_step_nil pad c pa : pad_step pad c [] pa = [].
+Proof. unfold pad_step. cbn [is_nil negb]. rewrite !andb_false_r. reflexivity. Qed.
+
+Lemma module_go_inv (P : N -> Prop) pad :
+  P USCORE ->
+  (forall c, asn_char c = true -> is_upper c = true -> P (to_lower c)) ->
+  (forall c, asn_char c = true -> is_upper c = false -> is_sep c = false -> P c) ->
+  forall s o pl pa, Forall P o -> forallb asn_char s = true -> Forall P (module_go pad s o pl pa).
+Proof.
+  intros HU HL HP. induction s as [|c rest IH]; intros o pl pa Ho Hs; cbn [module_go].
+  - apply Forall_rev. exact Ho.
+  - cbn [forallb] in Hs. apply andb_true_iff in Hs. destruct Hs as [Hc Hrest].
+    assert (Ho1 : Forall P (pad_step pad c o pa)).
+    { destruct (pad_step_cases pad c o pa) as [E|E]; rewrite E; auto. }
+    destruct (is_upper c) eqn:Eu.
+    + apply IH; [|exact Hrest]. constructor; [apply HL; assumption|].
+      destruct (upper_step_cases (pad_step pad c o pa) pl pa rest) as [E|E]; rewrite E; auto.
+    + destruct (is_sep c) eqn:Es; apply IH; try exact Hrest; constructor; auto.
+Qed.
+
+Lemma module_go_prefix pad : forall s o pl pa, exists t, module_go pad s o pl pa = rev o ++ t.
+Proof.
+  induction s as [|c rest IH]; intros o pl pa; cbn [module_go].
+  - exists []. rewrite app_nil_r. reflexivity.
+  - assert (Hp : exists u, rev (pad_step pad c o pa) = rev o ++ u).
+    { destruct (pad_step_cases pad c o pa) as [E|E]; rewrite E; cbn [rev]; [exists [USCORE] | exists []; rewrite app_nil_r]; reflexivity. }
+    destruct Hp as [u Hu].
+    destruct (is_upper c).
+    + destruct (IH (to_lower c :: upper_step (pad_step pad c o pa) pl pa rest) true (is_alpha c)) as [t Ht].
+      rewrite Ht. cbn [rev].
+      destruct (upper_step_cases (pad_step pad c o pa) pl pa rest) as [E|E]; rewrite E; cbn [rev]; rewrite Hu, <- !app_assoc; eexists; reflexivity.
+    + destruct (is_sep c).
+      * destruct (IH (USCORE :: pad_step pad c o pa) false (is_alpha c)) as [t Ht]. rewrite Ht. cbn [rev]. rewrite Hu, <- !app_assoc. eexists; reflexivity.
+      * destruct (IH (c :: pad_step pad c o pa) false (is_alpha c)) as [t Ht]. rewrite Ht. cbn [rev]. rewrite Hu, <- !app_assoc. eexists; reflexivity.
+Qed.
+
+(* the shape of the mangled name of an ASN.1 identifier: its first letter, then [a-z0-9_]* *)
+Lemma field_name_shape s :
+  asn_identifier s = true ->
+  exists c t, rust_field_name s = c :: t /\ is_lower c = true /\ Forall (fun x => okc x = true) t.
+Proof.
+  destruct s as [|c rest]; [discriminate|]. unfold asn_identifier. intros H.
+  apply andb_true_iff in H. destruct H as [H _]. apply andb_true_iff in H. destruct H as [Hc Hrest].
+  unfold rust_field_name, rust_module_name. cbn [module_go].
+  rewrite pad_step_nil, (lower_not_upper c Hc), (lower_not_sep c Hc).
+  destruct (module_go_prefix false rest [c] false (is_alpha c)) as [t Ht].
+  exists c, t. split; [rewrite Ht; reflexivity|]. split; [exact Hc|].
+  assert (HF : Forall (fun x => okc x = true) (module_go false rest [c] false (is_alpha c))).
+  { apply module_go_inv; auto using okc_to_lower, okc_plain.
+    constructor; [|constructor]. unf. lia. }
+  rewrite Ht in HF. cbn [rev app] in HF. inversion HF; assumption.
+Qed.
+
+Lemma replace_hyphen_id l : Forall (fun x => okc x = true) l -> map (fun c => if c =? HYPHEN then USCORE else c) l = l.
+Proof.
+  induction 1 as [|x l Hx _ IH]; [reflexivity|]. cbn [map]. rewrite (okc_not_hyphen x Hx), IH. reflexivity.
+Qed.
+
+Lemma mem_str_In s l : mem_str s l = true -> In s l.
+Proof.
+  unfold mem_str. intros H. apply existsb_exists in H. destruct H as [k [Hin Hk]].
+  apply str_eqb_eq in Hk. subst. exact Hin.
+Qed.
+
+(* an escaped name is never a keyword again (finite check over Gen/Keywords.v) *)
+Lemma escaped_not_keyword : forallb (fun k => negb (is_keyword (k ++ [USCORE]))) KEYWORDS = true.
+Proof. vm_compute. reflexivity. Qed.
+
+Definition Known_C09_keyword (s : list N) : Prop :=
+  is_keyword (rust_field_name s) = true /\ mem_str (rust_field_name s) KEYWORDS = false.
+
+Lemma field_idents_legal s :
+  asn_identifier s = true -> ~ Known_C09_keyword s ->
+  is_rust_ident (emit_field s) = true /\ is_keyword (emit_field s) = false.
+Proof.
+  intros Hs Hk. destruct (field_name_shape s Hs) as [c [t [E [Hc Ht]]]].
+  unfold emit_field, gen_field_name. rewrite E.
+  assert (Hall : Forall (fun x => okc x = true) (c :: t)). { constructor; [unf; lia | exact Ht]. }
+  rewrite (replace_hyphen_id (c :: t) Hall). cbn [andb].
+  assert (Hcont : forallb ident_continue t = true).
+  { apply forallb_Forall. eapply Forall_impl; [|exact Ht]. apply okc_continue. }
+  destruct (mem_str (c :: t) KEYWORDS) eqn:Em.
+  - split.
+    + cbn [app is_rust_ident]. rewrite (lower_alpha c Hc). rewrite forallb_app, Hcont. reflexivity.
+    + apply mem_str_In in Em. pose proof escaped_not_keyword as Hf. rewrite forallb_forall in Hf.
+      apply Hf in Em. apply negb_true_iff in Em. exact Em.
+  - split.
+    + cbn [is_rust_ident]. rewrite (lower_alpha c Hc). exact Hcont.
+    + destruct (is_keyword (c :: t)) eqn:Ek; [|reflexivity]. exfalso. apply Hk. unfold Known_C09_keyword. rewrite E. auto.
+Qed.
+
+(* ------------------------------------------------------------------ rust_variant_name *)
+Lemma variant_go_chars : forall s nu pu, forallb asn_char s = true -> Forall (fun x => alnum x = true) (variant_go s nu pu).
+Proof.
+  induction s as [|c rest IH]; intros nu pu Hs; cbn [variant_go]; [constructor|].
+  cbn [forallb] in Hs. apply andb_true_iff in Hs. destruct Hs as [Hc Hrest].
+  destruct (is_sep c) eqn:Es; [apply IH; exact Hrest|].
+  pose proof (alnum_of_asn c Hc Es) as Ha.
+  destruct (nu && negb pu).
+  - constructor; [apply alnum_to_upper; exact Ha | apply IH; exact Hrest].
+  - constructor; [|apply IH; exact Hrest].
+    destruct (pu && negb _); [apply alnum_to_lower|]; exact Ha.
+Qed.
+
+Lemma gen_variant_id : forall t, Forall (fun x => alnum x = true) t -> gen_variant_go t false = t.
+Proof.
+  induction 1 as [|x t Hx _ IH]; [reflexivity|]. cbn [gen_variant_go]. rewrite (alnum_not_sep x Hx), IH. reflexivity.
+Qed.
+
+(* an identifier or a typereference both give: an upper-case letter, then letters and digits; the generator keeps it *)
+Lemma variant_name_shape s :
+  (asn_identifier s = true \/ asn_typereference s = true) ->
+  exists u t, rust_variant_name s = u :: t /\ is_upper u = true /\ Forall (fun x => alnum x = true) t
+              /\ emit_variant s = u :: t.
+Proof.
+  intros H. destruct s as [|c rest]; [destruct H; discriminate|].
+  assert (Hc : (is_lower c = true \/ is_upper c = true) /\ forallb asn_char rest = true).
+  { unfold asn_identifier, asn_typereference in H. destruct H as [H|H];
+      apply andb_true_iff in H; destruct H as [H _]; apply andb_true_iff in H; destruct H; auto. }
+  destruct Hc as [Hc Hrest].
+  assert (Hsep : is_sep c = false). { destruct Hc; [apply lower_not_sep | apply upper_not_sep]; assumption. }
+  unfold emit_variant, rust_variant_name. cbn [variant_go]. rewrite Hsep. cbn [andb negb].
+  pose proof (variant_go_chars rest false true Hrest) as Ht.
+  assert (Hu : is_upper (to_upper c) = true).
+  { destruct Hc as [Hc|Hc]; [apply to_upper_of_lower; exact Hc | rewrite (to_upper_of_upper c Hc); exact Hc]. }
+  exists (to_upper c), (variant_go rest false true). repeat split; auto.
+  unfold gen_variant_name. cbn [gen_variant_go]. rewrite (to_upper_of_upper _ Hu), (gen_variant_id _ Ht). reflexivity.
+Qed.
+
+Definition SELF_TYPE : list N := codes "Self".
+
+(* the only keyword that starts with an upper-case letter is `Self` *)
+Lemma upper_keyword_is_Self :
+  forallb (fun k => match k with c :: _ => implb (is_upper c) (str_eqb k SELF_TYPE) | [] => true end) RUST_KEYWORDS = true.
+Proof. vm_compute. reflexivity. Qed.
+
+Definition Known_C09_variant (s : list N) : Prop := rust_variant_name s = SELF_TYPE.
+
+Lemma variant_idents_legal s :
+  (asn_identifier s = true \/ asn_typereference s = true) -> ~ Known_C09_variant s ->
+  is_rust_ident (emit_variant s) = true /\ is_keyword (emit_variant s) = false.
+Proof.
+  intros Hs Hk. destruct (variant_name_shape s Hs) as [u [t [E [Hu [Ht Ee]]]]]. rewrite Ee. split.
+  - cbn [is_rust_ident]. rewrite (upper_alpha u Hu). apply forallb_Forall.
+    eapply Forall_impl; [|exact Ht]. apply alnum_continue.
+  - destruct (is_keyword (u :: t)) eqn:Ek; [|reflexivity]. exfalso. apply Hk.
+    apply mem_str_In in Ek. pose proof upper_keyword_is_Self as Hf. rewrite forallb_forall in Hf.
+    specialize (Hf _ Ek). cbn beta iota in Hf. rewrite Hu in Hf. cbn [implb] in Hf. apply str_eqb_eq in Hf.
+    unfold Known_C09_variant. rewrite E. exact Hf.
+Qed.
+
+(* type names: rust_struct_or_enum_name is rust_variant_name, and the generator prints the name as it is *)
+Lemma type_idents_legal s :
+  asn_typereference s = true -> ~ Known_C09_variant s ->
+  is_rust_ident (emit_type s) = true /\ is_keyword (emit_type s) = false.
+Proof.
+  intros Hs Hk. destruct (variant_name_shape s (or_intror Hs)) as [u [t [E [Hu [Ht Ee]]]]].
+  pose proof (variant_idents_legal s (or_intror Hs) Hk) as H. rewrite Ee in H.
+  unfold emit_type, rust_struct_or_enum_name. rewrite E. exact H.
+Qed.
+
+(* ================================================================== the attribute sub-language (Front/Attr.v) *)
+From A1 Require Import Front.Attr.
+
+Definition wf_size (sz : size) : Prop :=
+  match sz with
+  | SAny => True
+  | SFix n _ => n <= USIZE_MAX
+  | SRange a b _ => a <= USIZE_MAX /\ b <= USIZE_MAX /\ a <> b      (* Size::reconsider_constraints: a range of one value is Fix *)
+  end.
+Definition tag_number (g : tag) : N :=
+  match g with TUniversal n | TApplication n | TContext n | TPrivate n => n end.
+Definition wf_name (s : list N) : Prop := is_rust_ident s = true /\ is_keyword s = false.
+(* LStr: the lexing of the printed string literal is trusted (no escapes are printed: see Known_C08 classes in Props/C08.v);
+   LOct is never re-parsed (refuted below); LEnum names are printed mangled, so only mangled names come back unchanged *)
+Definition wf_lit (l : lit) : Prop :=
+  match l with
+  | LBool _ | LStr _ => True
+  | LInt z => in_i64 z = true
+  | LOct _ => False
+  | LEnum t v => rust_struct_or_enum_name t = t /\ rust_variant_name v = v /\ wf_name t /\ wf_name v
+  end.
+Fixpoint wf_aty (t : aty) : Prop :=
+  match t with
+  | ABool | ANull => True
+  | AInt (Some a) (Some b) _ => in_i64 a = true /\ in_i64 b = true
+  | AInt None None _ => True
+  | AInt _ _ _ => False                        (* half-open ranges do not survive: refuted below *)
+  | AStr sz _ | AOct sz | ABits sz => wf_size sz
+  | AOpt t' => wf_aty t'
+  | ADef t' l => wf_aty t' /\ wf_lit l
+  | ASeqOf t' sz | ASetOf t' sz => wf_aty t' /\ wf_size sz
+  | ARef name (Some g) => wf_name name /\ tag_number g <= USIZE_MAX
+  | ARef _ None => False                       (* complex(Name) without tag is refused by the parser: refuted below *)
+  end.
+
+Definition rest_ok (r : list tok) : Prop := match r with [] => True | TPunct _ :: _ => True | _ => False end.
+
+Lemma with_params1 n p : with_params n [p] = [TIdent n; TParen p].
+Proof. unfold with_params. cbn [flat_map]. rewrite app_nil_r. reflexivity. Qed.
+Lemma with_params2 n p q : with_params n [p; q] = [TIdent n; TParen (p ++ TPunct COMMA :: q)].
+Proof. unfold with_params. cbn [flat_map]. rewrite app_nil_r. reflexivity. Qed.
+
+Lemma take_int_print_z z r : take_int (print_z z ++ r) = Some (z, r).
+Proof.
+  unfold print_z. destruct (z <? 0)%Z eqn:E; cbn [app take_int].
+  - rewrite N.eqb_refl. f_equal. f_equal. rewrite N2Z.inj_abs_N. lia.
+  - f_equal. f_equal. rewrite Z2N.id; lia.
+Qed.
+
+Lemma parse_mmv_value z r : in_i64 z = true -> parse_mmv (print_z z ++ r) = Ok (Value z, r).
+Proof. intros H. unfold parse_mmv. rewrite take_int_print_z, H. reflexivity. Qed.
+
+Lemma parse_ext_eof_ok e : parse_ext_eof (ext_toks e) = Ok e.
+Proof. destruct e; reflexivity. Qed.
+
+Lemma take_punct_same c r : take_punct c (TPunct c :: r) = Ok r.
+Proof. unfold take_punct. rewrite N.eqb_refl. reflexivity. Qed.
+
+Lemma parse_int_range_some a b e :
+  in_i64 a = true -> in_i64 b = true ->
+  parse_int_range (print_bound (Some a) S_min ++ [TPunct DOT; TPunct DOT] ++ print_bound (Some b) S_max ++ ext_toks e) = Ok (Some a, Some b, e).
+Proof.
+  intros Ha Hb. unfold parse_int_range, print_bound.
+  rewrite (parse_mmv_value a _ Ha). cbn [bind app]. rewrite take_punct_same. cbn [bind]. rewrite take_punct_same. cbn [bind].
+  rewrite (parse_mmv_value b _ Hb). cbn [bind]. rewrite parse_ext_eof_ok. reflexivity.
+Qed.
+
+Lemma parse_int_range_none e :
+  parse_int_range (print_bound None S_min ++ [TPunct DOT; TPunct DOT] ++ print_bound None S_max ++ ext_toks e) = Ok (None, None, e).
+Proof. destruct e; reflexivity. Qed.
+
+Lemma parse_size_value_num n r : n <= USIZE_MAX -> parse_size_value (TNum n :: r) = Ok (n, r).
+Proof.
+  intros H. unfold parse_size_value. cbn [take_int].
+  replace (in_usize (Z.of_N n)) with true by (unfold in_usize, USIZE_MAX in *; lia).
+  rewrite N2Z.id. reflexivity.
+Qed.
+
+Lemma parse_size_ok sz p :
+  wf_size sz -> size_param sz = Some p -> exists inner, p = [TIdent S_size; TParen inner] /\ parse_size inner = Ok sz.
+Proof.
+  destruct sz as [|n e|a b e]; cbn [wf_size size_param]; intros Hw Hp; inversion Hp; subst; clear Hp.
+  - eexists; split; [reflexivity|]. unfold parse_size. rewrite (parse_size_value_num n _ Hw). cbn [bind].
+    destruct e; reflexivity.
+  - destruct Hw as [Ha [Hb Hab]]. eexists; split; [reflexivity|]. unfold parse_size. cbn [app].
+    rewrite (parse_size_value_num a _ Ha). cbn [bind peek_punct]. replace (DOT =? COMMA) with false by reflexivity.
+    rewrite take_punct_same. cbn [bind]. rewrite take_punct_same. cbn [bind]. rewrite (parse_size_value_num b _ Hb). cbn [bind].
+    apply N.eqb_neq in Hab. destruct e; cbn; rewrite Hab; reflexivity.
+Qed.
+
+Lemma parse_opt_size_ok sz rest :
+  wf_size sz -> rest_ok rest ->
+  parse_opt_size (match size_param sz with Some p => [TParen p] | None => [] end ++ rest) = Ok (sz, rest).
+Proof.
+  intros Hw Hr. destruct (size_param sz) as [p|] eqn:Ep.
+  - destruct (parse_size_ok sz p Hw Ep) as [inner [E1 E2]]. subst p. cbn [app parse_opt_size].
+    replace (str_eqb (lower_str S_size) S_size) with true by reflexivity. rewrite E2. reflexivity.
+  - destruct sz; try discriminate. cbn [app]. destruct rest as [|[] rest']; cbn in Hr; try contradiction; reflexivity.
+Qed.
+
+Lemma parse_tag_ok g r : tag_number g <= USIZE_MAX -> parse_tag_group (tl (print_tag g) ++ r) = Ok (g, r).
+Proof.
+  intros H. assert (Hn : N.leb (tag_number g) USIZE_MAX = true) by (apply N.leb_le; exact H).
+  destruct g; cbn [print_tag tl app parse_tag_group tag_number] in *; rewrite Hn; reflexivity.
+Qed.
+
+Lemma parse_lit_ok l : wf_lit l -> parse_lit (print_lit l) = Ok l.
+Proof.
+  destruct l as [b|s|z|bs|t v]; cbn [wf_lit print_lit]; intros H.
+  - destruct b; reflexivity.
+  - reflexivity.
+  - unfold parse_lit, print_z. destruct (z <? 0)%Z eqn:E.
+    + cbn [take_int]. rewrite N.eqb_refl. replace (- Z.of_N (Z.abs_N z))%Z with z by (rewrite N2Z.inj_abs_N; lia). rewrite H. reflexivity.
+    + cbn [take_int]. rewrite Z2N.id by lia. rewrite H. reflexivity.
+  - contradiction.
+  - destruct H as [Ht [Hv [[Ht1 Ht2] [Hv1 Hv2]]]]. rewrite Ht, Hv. unfold parse_lit.
+    rewrite !N.eqb_refl, Ht1, Ht2, Hv1, Hv2. reflexivity.
+Qed.
+
+(* every production of the printed sub-language is read back as itself *)
+Lemma reparse_ty : forall t, wf_aty t -> forall f rest, (depth t < f)%nat -> rest_ok rest ->
+  parse_ty f (print_ty t ++ rest) = Ok (t, rest).
+Proof.
+  induction t as [| |mn mx e|sz cs|sz|sz|t IH|t IH l|t IH sz|t IH sz|name tg]; intros Hw f rest Hf Hr;
+    (destruct f as [|f]; [inversion Hf|]); cbn [print_ty].
+  - (* boolean *) reflexivity.
+  - (* null *) reflexivity.
+  - (* integer *)
+    rewrite with_params1. change ([TIdent S_integer; TParen ?x] ++ rest) with (TIdent S_integer :: TParen x :: rest).
+    cbn [parse_ty]. replace (ident_kind (lower_str S_integer)) with KInteger by reflexivity.
+    destruct mn as [a|], mx as [b|]; cbn [wf_aty] in Hw; try contradiction.
+    + destruct Hw as [Ha Hb]. rewrite (parse_int_range_some a b e Ha Hb).
+      unfold print_bound, print_z. destruct (a <? 0)%Z; reflexivity.
+    + rewrite parse_int_range_none. reflexivity.
+  - (* character strings *)
+    cbn [wf_aty] in Hw. unfold with_params, opt_list.
+    assert (E : forall n, (match match size_param sz with Some a => [a] | None => [] end with
+                           | [] => [TIdent n]
+                           | p :: ps => [TIdent n; TParen (p ++ flat_map (fun q => TPunct COMMA :: q) ps)]
+                           end) = TIdent n :: match size_param sz with Some p => [TParen p] | None => [] end).
+    { intros n. destruct (size_param sz); cbn [flat_map]; [rewrite app_nil_r|]; reflexivity. }
+    rewrite E. cbn [app parse_ty].
+    replace (ident_kind (lower_str (charset_name cs))) with (KString cs) by (destruct cs; reflexivity).
+    rewrite (parse_opt_size_ok sz rest Hw Hr). reflexivity.
+  - (* octet_string *)
+    cbn [wf_aty] in Hw. unfold with_params, opt_list.
+    assert (E : (match match size_param sz with Some a => [a] | None => [] end with
+                 | [] => [TIdent S_octet_string]
+                 | p :: ps => [TIdent S_octet_string; TParen (p ++ flat_map (fun q => TPunct COMMA :: q) ps)]
+                 end) = TIdent S_octet_string :: match size_param sz with Some p => [TParen p] | None => [] end).
+    { destruct (size_param sz); cbn [flat_map]; [rewrite app_nil_r|]; reflexivity. }
+    rewrite E. cbn [app parse_ty]. replace (ident_kind (lower_str S_octet_string)) with KOctet by reflexivity.
+    rewrite (parse_opt_size_ok sz rest Hw Hr). reflexivity.
+  - (* bit_string: always a parenthesis, empty without size *)
+    cbn [wf_aty] in Hw. rewrite with_params1. cbn [app parse_ty]. replace (ident_kind (lower_str S_bit_string)) with KBits by reflexivity.
+    destruct (size_param sz) as [p|] eqn:Ep.
+    + destruct (parse_size_ok sz p Hw Ep) as [inner [E1 E2]]. subst p. cbn [parse_opt_size].
+      replace (str_eqb (lower_str S_size) S_size) with true by reflexivity. rewrite E2. reflexivity.
+    + destruct sz; try discriminate. reflexivity.
+  - (* optional *)
+    cbn [wf_aty depth] in *. rewrite with_params1. cbn [app parse_ty]. replace (ident_kind (lower_str S_optional)) with KOptional by reflexivity.
+    rewrite <- (app_nil_r (print_ty t)). rewrite (IH Hw f [] ltac:(lia) I). reflexivity.
+  - (* default *)
+    cbn [wf_aty depth] in *. destruct Hw as [Hw Hl]. rewrite with_params2. cbn [app parse_ty].
+    replace (ident_kind (lower_str S_default)) with KDefault by reflexivity.
+    rewrite (IH Hw f (TPunct COMMA :: print_lit l) ltac:(lia) I). cbn [bind]. rewrite take_punct_same. cbn [bind].
+    rewrite (parse_lit_ok l Hl). reflexivity.
+  - (* sequence_of *)
+    cbn [wf_aty depth] in *. destruct Hw as [Hw Hs]. destruct (size_param sz) as [p|] eqn:Ep; cbn [opt_list app].
+    + rewrite with_params2. destruct (parse_size_ok sz p Hs Ep) as [inner [E1 E2]]. subst p. cbn [app parse_ty].
+      replace (ident_kind (lower_str S_sequence_of)) with KSeqOf by reflexivity.
+      replace (str_eqb (lower_str S_size) S_size) with true by reflexivity. rewrite E2. cbn [bind]. rewrite take_punct_same. cbn [bind].
+      rewrite <- (app_nil_r (print_ty t)). rewrite (IH Hw f [] ltac:(lia) I). reflexivity.
+    + destruct sz; try discriminate. rewrite with_params1. cbn [app parse_ty].
+      replace (ident_kind (lower_str S_sequence_of)) with KSeqOf by reflexivity.
+      assert (Hhd : exists id r0, print_ty t = TIdent id :: r0 /\ (forall szt r1, r0 = TParen szt :: r1 -> str_eqb (lower_str id) S_size = false)).
+      { destruct t; cbn [print_ty]; try (unfold with_params; cbn; eexists; eexists; split; [reflexivity|]; intros; reflexivity).
+        - unfold with_params. destruct (opt_list (size_param sz)); eexists; eexists; (split; [reflexivity|]); intros; destruct cs; reflexivity.
+        - unfold with_params. destruct (opt_list (size_param sz)); eexists; eexists; (split; [reflexivity|]); intros; reflexivity.
+        - unfold with_params. destruct (opt_list (size_param sz) ++ [print_ty t]); eexists; eexists; (split; [reflexivity|]); intros; reflexivity.
+        - unfold with_params. destruct (opt_list (size_param sz) ++ [print_ty t]); eexists; eexists; (split; [reflexivity|]); intros; reflexivity. }
+      destruct Hhd as [id [r0 [Eh Hne]]].
+      assert (Esel : (match print_ty t with
+                      | TIdent i :: TParen szt :: rest0 =>
+                        if str_eqb (lower_str i) S_size
+                        then let! s := parse_size szt in let! rest1 := take_punct COMMA rest0 in Ok (s, rest1)
+                        else Ok (SAny, print_ty t)
+                      | _ => Ok (SAny, print_ty t)
+                      end) = Ok (SAny, print_ty t)).
+      { rewrite Eh. destruct r0 as [|[] r1]; try reflexivity. rewrite (Hne _ _ eq_refl). reflexivity. }
+      rewrite Esel. cbn [bind]. rewrite <- (app_nil_r (print_ty t)). rewrite (IH Hw f [] ltac:(lia) I). reflexivity.
+  - (* set_of *)
+    cbn [wf_aty depth] in *. destruct Hw as [Hw Hs]. destruct (size_param sz) as [p|] eqn:Ep; cbn [opt_list app].
+    + rewrite with_params2. destruct (parse_size_ok sz p Hs Ep) as [inner [E1 E2]]. subst p. cbn [app parse_ty].
+      replace (ident_kind (lower_str S_set_of)) with KSetOf by reflexivity.
+      replace (str_eqb (lower_str S_size) S_size) with true by reflexivity. rewrite E2. cbn [bind]. rewrite take_punct_same. cbn [bind].
+      rewrite <- (app_nil_r (print_ty t)). rewrite (IH Hw f [] ltac:(lia) I). reflexivity.
+    + destruct sz; try discriminate. rewrite with_params1. cbn [app parse_ty].
+      replace (ident_kind (lower_str S_set_of)) with KSetOf by reflexivity.
+      assert (Hhd : exists id r0, print_ty t = TIdent id :: r0 /\ (forall szt r1, r0 = TParen szt :: r1 -> str_eqb (lower_str id) S_size = false)).
+      { destruct t; cbn [print_ty]; try (unfold with_params; cbn; eexists; eexists; split; [reflexivity|]; intros; reflexivity).
+        - unfold with_params. destruct (opt_list (size_param sz)); eexists; eexists; (split; [reflexivity|]); intros; destruct cs; reflexivity.
+        - unfold with_params. destruct (opt_list (size_param sz)); eexists; eexists; (split; [reflexivity|]); intros; reflexivity.
+        - unfold with_params. destruct (opt_list (size_param sz) ++ [print_ty t]); eexists; eexists; (split; [reflexivity|]); intros; reflexivity.
+        - unfold with_params. destruct (opt_list (size_param sz) ++ [print_ty t]); eexists; eexists; (split; [reflexivity|]); intros; reflexivity. }
+      destruct Hhd as [id [r0 [Eh Hne]]].
+      assert (Esel : (match print_ty t with
+                      | TIdent i :: TParen szt :: rest0 =>
+                        if str_eqb (lower_str i) S_size
+                        then let! s := parse_size szt in let! rest1 := take_punct COMMA rest0 in Ok (s, rest1)
+                        else Ok (SAny, print_ty t)
+                      | _ => Ok (SAny, print_ty t)
+                      end) = Ok (SAny, print_ty t)).
+      { rewrite Eh. destruct r0 as [|[] r1]; try reflexivity. rewrite (Hne _ _ eq_refl). reflexivity. }
+      rewrite Esel. cbn [bind]. rewrite <- (app_nil_r (print_ty t)). rewrite (IH Hw f [] ltac:(lia) I). reflexivity.
+  - (* complex *)
+    destruct tg as [g|]; cbn [wf_aty] in Hw; [|contradiction]. destruct Hw as [[Hn1 Hn2] Hg].
+    cbn [option_map opt_list]. rewrite with_params2. cbn [app parse_ty].
+    replace (ident_kind (lower_str S_complex)) with KComplex by reflexivity.
+    unfold print_tag at 1. cbn [app]. rewrite N.eqb_refl, Hn1, Hn2. cbn [negb orb].
+    replace (is_rust_ident S_tag) with true by reflexivity. replace (is_keyword S_tag) with false by reflexivity.
+    replace (str_eqb (lower_str S_tag) S_tag) with true by reflexivity. cbn [negb orb].
+    pose proof (parse_tag_ok g [] Hg) as Ht. unfold print_tag in Ht. cbn [tl app] in Ht. rewrite Ht. reflexivity.
+Qed.
+
+Lemma reparse_type t : wf_aty t -> parse_attr_type (S (depth t)) (print_ty t) = Ok t.
+Proof.
+  intros Hw. unfold parse_attr_type. rewrite <- (app_nil_r (print_ty t)).
+  rewrite (reparse_ty t Hw (S (depth t)) [] ltac:(lia) I). reflexivity.
+Qed.
